@@ -123,6 +123,38 @@ Proof.
     destruct i as [|hrp [raw|]]; exact P.
 Qed.
 
+Lemma b_xuans t items o :
+  wf_case (CExtra (XUaNs t items o)) = true -> run_case (CExtra (XUaNs t items o)) = true ->
+  prop_case (CExtra (XUaNs t items o)) = true.
+Proof.
+  cbn [wf_case run_case prop_case xwf xrun xprop]. intros W R.
+  apply andb_true_iff in W. destruct W as [W Wo]. apply andb_true_iff in W. destruct W as [_ Wi].
+  pose proof (addr_items_ok_spec _ Wi) as C.
+  apply (outcome_eqb_spec _ _ (pair_eqb_spec _ _ uaddr_eqb_spec items_eqb_spec) unit_eqb_spec) in R.
+  subst o. unfold ua_model_ns in *.
+  destruct (ua_try_from_ns (dsa_of t) items) as [a|e|] eqn:TF.
+  - destruct (ua_ns_sound (dsa_of t) items a C TF) as (Ko & _ & _ & _ & RE). rewrite RE in *.
+    rewrite Ko. cbn [is_some negb andb].
+    destruct (tab_canonical t) eqn:TC; [|reflexivity].
+    apply andb_true_iff in Wo. destruct Wo as [Wa _]. unfold wf_uaddr in Wa.
+    repeat (apply andb_true_iff in Wa; destruct Wa as [Wa ?]).
+    destruct (ua_ns_roundtrip (dsa_of t) items a C TF) as (_ & X & _).
+    + intros d kk X Y. unfold dsa_of in X.
+      apply (look_ores_canonical t 25 d kk TC); [lia | exact X | exact (ookb_bytes _ _ _ H1 Y)].
+    + rewrite X, (spec_refl _ items_eqb_spec). reflexivity.
+  - destruct e. unfold some_rejected.
+    assert (A : asc None items).
+    { destruct C as [_ T]. unfold try_from_items_internal in T.
+      destruct (tfi_loop items None true) as [[|]| |] eqn:TL; try discriminate.
+      apply asc_a_asc. eapply tfi_loop_sound_a; exact TL. }
+    pose proof (ua_ns_err (dsa_of t) items A TF) as X.
+    rewrite existsb_exists in *. destruct X as (it & I1 & I2). exists it. split; [exact I1|].
+    rewrite I2. apply orb_true_r.
+  - destruct (tab_has_panic t) eqn:P; [reflexivity|]. exfalso.
+    unfold ua_try_from_ns in TF.
+    exact (ua_loop_ns_never_panics (dsa_of t) items None None [] (fun x => no_panic t P 25 x 0) TF).
+Qed.
+
 (** narrowing in the profile without `transparent-inputs`: the derived UIVK has exactly the
     external IVKs of the interpreted items; nothing the UFVK merely kept is carried over *)
 Theorem narrow_nt O k i :
@@ -175,5 +207,5 @@ Proof.
     + exact (b_legacy _ W R).
     + exact (b_gap _ W R).
     + destruct x; [exact (b_xua _ _ _ W R) | exact (b_xfvk _ _ _ _ W R) | exact (b_xivk _ _ _ _ W R)
-                  | exact (b_xnarrow _ _ _ W R)].
+                  | exact (b_xnarrow _ _ _ W R) | exact (b_xuans _ _ _ W R)].
 Qed.
